@@ -611,7 +611,6 @@ fn check_typenames(doc: &Doc, sel: &SelSet, parent: &str, data: &J, bad: &mut Ve
     }
 }
 
-#[derive(Debug)]
 enum Dev {
     /// schema metadata in a response although introspection is disabled: root keys whose value carries it
     Leak { keys: Vec<String>, in_errors: bool },
@@ -619,6 +618,17 @@ enum Dev {
     Ran(Vec<String>),
     Typename(Vec<String>),
     NoData(String),
+}
+
+impl Dev {
+    fn show(&self) -> String {
+        match self {
+            Dev::Leak { keys, in_errors } => format!("schema metadata in the response although introspection is disabled (under data keys {:?}{})", keys, if *in_errors { ", and in errors" } else { "" }),
+            Dev::Ran(log) => format!("resolvers ran although introspection-only: {:?}", log),
+            Dev::Typename(bad) => bad.join("; "),
+            Dev::NoData(why) => why.clone(),
+        }
+    }
 }
 
 struct Outcome {
@@ -707,7 +717,7 @@ fn case_for(servers: &Servers, cell: Cell, s: &mut dyn Src, allow: &Allow, open:
                     ids.push(id.to_string())
                 }
             }
-            None => unexplained.push(format!("{:?}", d)),
+            None => unexplained.push(d.show()),
         }
     }
     let c = if !unexplained.is_empty() {
@@ -747,13 +757,20 @@ pub fn run(ctx: &mut Ctx) {
     let all: [&'static str; 4] = ["C19-F1", "C19-F2", "C19-F3", "C19-F4"];
     let open: Vec<&'static str> = all.into_iter().filter(|f| ctx.open(f)).collect();
     let is = |f: &str| open.iter().any(|o| *o == f);
-    let n = ctx.tier.pick(400u32, 20_000);
+    let tier = ctx.tier;
+    let per_cell = |op: OpKind| match op {
+        // few distinct subscription documents exist (one root field)
+        OpKind::Subscription => tier.pick(300u32, 3_000),
+        OpKind::Mutation => tier.pick(3_000, 100_000),
+        OpKind::Query => tier.pick(8_000, 300_000),
+    };
     let mut cells = 0;
     for flavour in [Flavour::Static, Flavour::Dynamic] {
         for schema in MODES {
             for request in MODES {
                 for op in [OpKind::Query, OpKind::Mutation, OpKind::Subscription] {
                     let cell = Cell { schema, request, flavour, op };
+                    let n = per_cell(op);
                     cells += 1;
                     // constructs of the open findings are kept out of the main stream of the cells they affect …
                     let f1 = is("C19-F1") && flavour == Flavour::Static && cell.disabled() && op == OpKind::Query;
@@ -783,12 +800,12 @@ pub fn run(ctx: &mut Ctx) {
     }
     ctx.exhaustive = Some(true);
     ctx.note("matrix_cells_visited", serde_json::json!(cells));
-    ctx.floor("disabled-and-asks-for-metadata", 2000);
-    ctx.floor("only-and-asks-for-resolvers", 2000);
-    ctx.floor("metadata-in-response", 500);
-    ctx.floor("resolvers-ran", 2000);
-    ctx.floor("typename-resolved", 2000);
-    ctx.floor("_service", 500);
-    ctx.floor("_entities", 500);
-    ctx.floor("fragments", 1000);
+    ctx.floor("disabled-and-asks-for-metadata", 15_000);
+    ctx.floor("only-and-asks-for-resolvers", 20_000);
+    ctx.floor("metadata-in-response", 9_000);
+    ctx.floor("resolvers-ran", 15_000);
+    ctx.floor("typename-resolved", 30_000);
+    ctx.floor("_service", 9_000);
+    ctx.floor("_entities", 9_000);
+    ctx.floor("fragments", 20_000);
 }
